@@ -21,6 +21,7 @@ type HeldCfg struct {
 	Kinds         []string `json:"kinds"`
 	MaxCases      int      `json:"maxcases"`
 	PermMax       int      `json:"permmax"` // all release orders for held sets up to this size
+	UnknownFids   bool     `json:"unknownfids"`
 	CloseVariants bool     `json:"closevariants"`
 }
 
@@ -165,7 +166,11 @@ func TestHeld(t *testing.T) {
 				if tag > cfg.NT {
 					tag = cfg.NT
 				}
-				st := []any{"Recv", kind, tag, 1, 0, 0}
+				fidn := 1
+				if hc.UnknownFids && rng.Intn(3) == 0 && cfg.NF >= 2 {
+					fidn = 2 // never attached: refused by the framework with 'unknown fid'
+				}
+				st := []any{"Recv", kind, tag, fidn, 0, 0}
 				if err := k.Do(st); err != nil {
 					k.Drift = err.Error()
 					return false
